@@ -13,7 +13,7 @@ Feats == {"std", "alloc"}
 Fams == {"future_group", "stream_group"}
 
 CfgsQuick ==
-  {[maxFromIter |-> 2] @@ Mk(fa, "keyed", 0, f, <<>>, B(FALSE, 1, 1, 1, 0, 0, 0, FALSE, FALSE, FALSE, 3, 0, 0)) : fa \in Fams, f \in Feats} \cup
+  {[maxFromIter |-> 2] @@ Mk(fa, "keyed", 0, f, <<>>, B(FALSE, 1, 1, 1, 0, 0, 0, FALSE, FALSE, FALSE, 2, 0, 0)) : fa \in Fams, f \in Feats} \cup
   {[maxExt |-> 2] @@ Mk("future_group", "keyed", 0, f, <<>>, B(FALSE, 1, 1, 1, 0, 0, 0, FALSE, FALSE, FALSE, 3, 1, 0)) : f \in Feats} \cup
   {[reuse |-> TRUE] @@ Mk(fa, "keyed", 0, f, <<>>, B(FALSE, 1, 1, 1, 0, 1, 0, FALSE, FALSE, FALSE, 1, 0, 0)) : fa \in Fams, f \in Feats} \cup
   {Mk(fa, "keyed", 0, f, <<>>, B(FALSE, 1, 1, 1, 1, 0, 1, FALSE, FALSE, FALSE, 2, 1, 0)) : fa \in Fams, f \in Feats}
@@ -29,7 +29,7 @@ CfgsThorough ==
   \cup {Mk(fa, "keyed", 0, "std", <<>>, B(FALSE, 1, 1, 1, 0, 0, 0, FALSE, FALSE, TRUE, 2, 0, 0)) : fa \in Fams}
 
 CfgsGenQ ==
-  {[maxFromIter |-> 2] @@ Mk(fa, co, 0, f, <<>>, B(TRUE, 1, 1, 1, 0, 0, 0, FALSE, FALSE, FALSE, 3, 0, 0)) : fa \in Fams, f \in Feats, co \in {"keyed", "plain"}} \cup
+  {[maxFromIter |-> 2] @@ Mk(fa, "keyed", 0, f, <<>>, B(TRUE, 1, 1, 0, 0, 0, 0, FALSE, FALSE, FALSE, 2, 0, 0)) : fa \in Fams, f \in Feats} \cup
   {[maxExt |-> 2] @@ Mk("future_group", "keyed", 0, f, <<>>, B(TRUE, 1, 1, 0, 0, 0, 0, FALSE, FALSE, FALSE, 3, 1, 0)) : f \in Feats} \cup
   {Mk(fa, "keyed", 0, f, <<>>, B(TRUE, 1, 1, 1, 0, 0, 0, FALSE, FALSE, FALSE, 2, 1, 0)) : fa \in Fams, f \in Feats}
   \cup {Mk(fa, "plain", 0, f, <<>>, B(TRUE, 1, 1, 1, 0, 0, 0, TRUE, FALSE, FALSE, 1, 1, 0)) : fa \in Fams, f \in Feats}
